@@ -76,19 +76,21 @@ theorem stage_opts_effective (r : Route) (v : Variant) (u : User) (hu : WF u) (c
         (fun p d hp => assignA_ext_lookup _ hu.extNodup hp)
     · simp [emit, not_configurable_error v u hcf, bind, Except.bind] at h
   | getFunc =>
+    by_cases hf : takesFunc v = true
+    case neg => simp [emit, hf, bind, Except.bind] at h
     by_cases hcf : Configurable v
     · obtain ⟨c1, c2, c3, c4⟩ := cfg_facts (baseVariant v) hcf
       obtain ⟨K, hK, k1, k2, k3, _⟩ := kwargsConfig_spec (baseVariant v) u c1 c2 c3 c4 hu.clean hu.topSlash
         hu.imfSlash hu.envSlash hu.extSlash
       have h' : runVariant false v K = .ok cs := by
-        simpa [emit, hK, bind, Except.bind, pure, Except.pure, Except.map, partialCall, append_nil] using h
+        simpa [emit, hf, hK, bind, Except.bind, pure, Except.pure, Except.map, partialCall, append_nil] using h
       have ob := runVariant_obeys v h'
       rw [(imfOf_config v K hcf).1, k1, k2, k3] at ob
       rw [(imfOf_config v K hcf).2 u]
       exact ob.congr (fun p d hp => assignA_own_lookup gniOwn gniOwn _ hu.imfNodup (fun _ _ h => gniOwn_self h) hp)
         (fun p d hp => assignA_own_lookup ieOwn envDefaults _ hu.envNodup (fun _ _ h => envDefaults_agree h) hp)
         (fun p d hp => assignA_ext_lookup _ hu.extNodup hp)
-    · simp [emit, not_configurable_error v u hcf, bind, Except.bind, Except.map] at h
+    · simp [emit, hf, not_configurable_error v u hcf, bind, Except.bind, Except.map] at h
 
 /-- **The three delivery routes are indistinguishable at the stages.** Keyword dictionaries,
     an edited `get_config(...)` unpacked into the call, and `SiftConfig.get_func()`: whatever two
